@@ -12,6 +12,7 @@ mod rec;
 mod s_api;
 mod s_bilinear;
 mod s_linear;
+mod s_misc;
 mod s_spline;
 mod scen;
 
@@ -53,7 +54,6 @@ fn main() {
             }
         }
     }
-    let _ = &cases;
     dynif::install_quiet_panic_hook();
     let thorough = tier == "thorough";
     let mut tr = rec::Trace::new();
@@ -65,6 +65,13 @@ fn main() {
         "buffers" => s_api::buffers(&mut tr, &mut rng, thorough),
         "custom" => s_api::custom(&mut tr, &mut rng, thorough),
         "casts" => s_api::casts(&mut tr, &mut rng, thorough),
+        "mono" => s_misc::mono(&mut tr, &mut rng, thorough, cases.as_deref()),
+        "lower" => s_misc::lower(&mut tr, &mut rng, thorough, cases.as_deref()),
+        "builder" => s_misc::builder(&mut tr, &mut rng, thorough),
+        "lanes" => s_misc::lanes(&mut tr, &mut rng, thorough),
+        "poison" => s_misc::poison(&mut tr, &mut rng, thorough),
+        "units" => s_misc::units(&mut tr, &mut rng, thorough),
+        "threads" => s_misc::threads(&mut tr, &mut rng, thorough),
         "bilinear" => s_bilinear::bilinear(&mut tr, &mut rng, thorough),
         "spline" => s_spline::spline(&mut tr, &mut rng, thorough),
         "periodic" => s_spline::periodic(&mut tr, &mut rng, thorough),
